@@ -280,6 +280,8 @@ func unpackWrapper(c *Ctx, w *ssa.Function) (inner *ssa.Call, keyIdx, ctIdx, err
 	for i, pa := range w.Params {
 		if p.Resolve(inner.Call.Args[2]) == ssa.Value(pa) {
 			keyIdx = i
+		} else if keyIdx < 0 && strings.Contains(pa.Type().String(), "list.Element") && p.AnyFrom(inner.Call.Args[2], eng.OriginOpts{ThroughConvert: true, ThroughFieldLoad: true, ThroughIndex: true}, func(v ssa.Value) bool { return v == ssa.Value(pa) }) {
+			keyIdx = i // the wrapper is handed the list element and takes the key out of it
 		}
 		if p.AnyFrom(inner.Call.Args[1], eng.OriginOpts{ThroughSlice: true, ThroughConvert: true}, func(v ssa.Value) bool { return v == ssa.Value(pa) }) {
 			ctIdx = i
